@@ -721,6 +721,9 @@ def nontrivial(c):
 
 READY = True
 JOBS = 12
+USES_GEN = True        # lean/Dashu/Gen/ConvConsts.lean (vlib/extract.py gen_conv_consts: literal constants of into_fNN_internal, to_f32/to_f64,
+                       # impl_conversion_to_float!, Repr::to_f32/to_f64 of dashu-ratio), Gen/Misc.lean (THRESHOLD_SMALL_EXP of convert_base),
+                       # Gen/FloatRound*.lean (round_low_part tables behind reprRound)
 
 THEOREMS = ["Dashu.Props.C06." + n for n in [
     "spec_rounding_is_nearest", "spec_rounding_ties_to_even", "decode_reads_fields_f32", "decode_reads_fields_f64",
@@ -744,7 +747,12 @@ THEOREMS = ["Dashu.Props.C06." + n for n in [
     "fbig_to_f64_flag_iff", "fbig_to_f32_flag_iff", "fbig_to_f64_bad_regions_inhabited", "rbig_to_f64_fast_normal_form",
     "rbig_to_f32_fast_normal_form", "rbig_to_float_fast_quotient_bound", "rbig_try_to_f32_iff", "rbig_try_to_f64_iff",
     "fbig_try_to_f64_sound", "fbig_try_to_f32_sound", "signed_primitive_roundtrip", "fbig_to_f32_value_iff_every_mode",
-    "fbig_to_f32_mode_region_inhabited"]]
+    "fbig_to_f32_mode_region_inhabited",
+    "rbig_try_to_f32_kind", "rbig_try_to_f64_kind", "rbig_try_to_f32_out_of_bounds_truthful",
+    "rbig_try_to_f64_out_of_bounds_truthful", "rbig_try_to_f32_large_dyadic", "rbig_try_to_f64_large_dyadic",
+    "fbig_to_f32_flag_iff_every_mode", "fbig_to_f64_flag_iff_every_mode", "fbig_to_float_error_sign_composition",
+    "fbig_base_to_f32_normal_form", "fbig_base_to_f64_normal_form", "fbig_base_to_f64_panic_iff",
+    "fbig_base_to_f32_panic_iff", "conv_constants_regenerated"]]
 EXTRA_AXIOMS = {}      # bv_decide was NOT needed: encode_correct is an arithmetic proof (propext, Classical.choice, Quot.sound only)
 
 REFINED = [
@@ -769,6 +777,19 @@ REFINED = [
     "TryFrom<RBig> for f32/f64 (succeeds IFF exactly representable, returns that float), TryFrom<FBig<_,2>|Repr<2>> for f32/f64 (a success is "
     "exact), RBig::to_int (truncation, Exact iff integer, fraction is the rest)",
     "FBig::to_int / Repr::to_int: re-exported from builder-float's proofs (mode followed, flagged inexact)",
+    "rational/src/convert.rs TryFrom<RBig> for f32/f64, the KIND of a refusal: the mirrored conversion equals the value-level "
+    "specification ratTryToFloatSpec (which the driver prints as the required result) for every rational in lowest terms, never panics; "
+    "an OutOfBounds refusal is truthful (the value rounds to +-inf) and every dyadic value >= 2^128 / 2^1024 is refused with OutOfBounds "
+    "(rbig_try_to_f32_kind, ..._out_of_bounds_truthful, ..._large_dyadic)",
+    "float/src/convert.rs FBig::<R,2>::to_f32 FLAG for EVERY mode R (directed modes, HalfAway, HalfEven): outside ModeBad the returned "
+    "Rounding is the truthful label of the single rounding in mode R IFF not ToFloatFlagBad (fbig_to_f32_flag_iff_every_mode; the true "
+    "error sign is the composition of the first rounding's and encode's, fbig_to_float_error_sign_composition, every format)",
+    "float/src/convert.rs FBig::<R,B>::to_f32/to_f64, Repr::<B>::to_f32/to_f64 for B != 2 through every branch of "
+    "Context::convert_base::<B,2> except ln/exp (B a power of two; |exponent| <= THRESHOLD_SMALL_EXP (regenerated): multiplication, "
+    "repr_div, long-dividend path) + into_fNN_internal INCLUDING its debug assertion: mirrored (Model/Conv/Base.lean on builder-text's "
+    "convertBase), executed by the driver as the `.code` ops (real code vs mirrored algorithm, bit for bit, panics included); normal form "
+    "(bits = IEEE rounding of convert_base's value, which meets the rounding contract at 24/53 bits) and the exact panic region "
+    "(convert_base returned prec+1 bits) proved (fbig_base_to_f32/f64_normal_form, ..._panic_iff)",
     "integer/src/convert.rs try_to_unsigned / unsigned_from_words (all word sizes that are multiples of 8), "
     "integer/src/primitive.rs to_sign_magnitude / try_from_sign_magnitude (all widths), from_unsigned round trip",
 ]
@@ -776,12 +797,10 @@ FRONTIER = [
     "rational/src/convert.rs to_f32_fast/to_f64_fast: mirrored, normal form and the quotient-level error bound (< 4.5 units of the quotient, "
     "i.e. < 2.5 ulps before encode's correct rounding) are proved; the resulting 3-unit bound on the bit patterns (all regimes incl. "
     "subnormal/overflow) is checked per case",
-    "TryFrom<RBig> for f32/f64: the KIND of a refusal (OutOfBounds vs LossOfPrecision) follows the order of the tests in the code and is "
-    "checked per case only (success IFF exactly representable is proved)",
-    "FBig::<R,2>::to_f32 with a directed mode / HalfAway: the VALUE is proved equal to the single-rounding spec exactly outside ModeBad "
-    "(fbig_to_f32_value_iff_every_mode); the FLAG in those modes is decided per case only (closed form proved for round-half-even only)",
-    "FBig/Repr::to_f32/to_f64 for bases that are not 2 (convert_base: division or ln/exp path), RBig::to_float, From<RBig> for FBig: spec only "
-    "(single rounding of the exact rational value under the documented mode, flags derived from the true error)",
+    "FBig/Repr::to_f32/to_f64 for a base that is no power of two and |exponent| > THRESHOLD_SMALL_EXP (convert_base through ln/exp): spec "
+    "only (single rounding of the exact rational value under the documented mode, flags derived from the true error); for the mirrored "
+    "branches the SINGLE-rounding value/flag is decided per case against the specification (the code rounds twice: findings)",
+    "RBig::to_float, From<RBig> for FBig: spec only (single rounding of the exact rational value under the documented mode)",
 ]
 RULE = ("Structured, built from the branch conditions of the code. encode/decode: ALL exponents (qmin-N-6 .. emax+6, and the i16 extremes) x "
         "mantissa classes {1, 3, 2^k, 2^k-1, 2^p±1, i32/i64 MIN/MAX} plus, for every mantissa length L and every cut position k (normal cut L-p, "
@@ -796,7 +815,10 @@ RULE = ("Structured, built from the branch conditions of the code. encode/decode
         "boundary 64k, and 0..2); for rationals also remainder-only sticky (odd denominators). Rationals: quotients with p-1..p+3 bits x the cut patterns x denominators {1, "
         "small odd, 2^k, 2^64±1, 10^25, random} at exponents in the normal range, the subnormal band, below it and at the overflow edge; "
         "to_float over bases {2,3,10,16} x 6 modes x precisions with tie/near-tie tails. Floats of any base: every exponent boundary of into_fNN_internal and of encode's regimes (±2) x significands of p-1..p+3 bits (all ones, 10..01, ties after the first rounding); binary significands of 1..200 bits "
-        "at every regime, decimals d·10^e with |e| <= 400 (1..40 digits), the to_int family with exact halves/near halves. All call forms "
+        "at every regime, decimals d·10^e with |e| <= 400 (1..40 digits), the to_int family with exact halves/near halves. Bases 10, 3, 16 through "
+        "every mirrored branch of convert_base::<B,2> (`.code` ops beside the spec ops): every exponent of the small-exponent window -T-1..T+1 x significands of 1..60 digits (multiply / "
+        "repr_div with q = 0, short q, long q / long-dividend path), exactly representable quotients and exact ties m·odd^k·B^-k with m of p-1..p+3 and 2p+1 bits and "
+        "their +-1 neighbours, dividends of p+den-1..p+den+2 bits (the repr_div / long-path boundary), the f32/f64 overflow edge. All call forms "
         "(owned/ref, RBig/Relaxed, FBig/Repr) are evaluated and must agree. Non-trivial := some operand is neither 0 nor ±1; distinct := distinct (op,args).")
 EXPLANATION = ("Centre: a machine-checked proof that f32/f64::encode of the current tree equals the IEEE-754 round-to-nearest-even specification "
                "(overflow, gradual underflow, ±0) with the true error sign for EVERY (mantissa, exponent) — the statement that exposed two mask "
@@ -816,7 +838,13 @@ LEVEL_TEXT = ("Lean 4 theorems (no bounds on mantissa, exponent, integer length 
               "iff in range and return the value. The hand-written model is tied to /repo on every run by differential execution of model, "
               "specification and real code over generated cases at every branch threshold, all call forms. Rational and non-binary float "
               "conversions: specification (exact rational arithmetic, single rounding) vs real code by correspondence; RBig::to_f32/to_f64 "
-              "are refined as well (correctly rounded for every rational).")
+              "are refined as well (correctly rounded for every rational). Round 4: the refusal KIND of TryFrom<RBig> for f32/f64 is a theorem "
+              "(model = value-level spec for every rational in lowest terms); the FLAG of FBig::<R,2>::to_f32 has a proved closed form in every "
+              "mode; to_f32/to_f64 of bases != 2 are mirrored through convert_base's exact-evaluation branches (incl. the debug assertion) and "
+              "compared bit for bit with the real code, with a proved normal form and panic region. Tie A: the literal constants of into_fNN_internal, "
+              "the to_f32/to_f64 precisions, the bounds of impl_conversion_to_float! and the quotient width / exits of dashu-ratio's Repr::to_f32/to_f64 "
+              "are regenerated from the source on every run (Gen/ConvConsts.lean) and proved equal to the models' constants "
+              "(conv_constants_regenerated); the panic sites of the width assertion are the regenerated strings.")
 LEVEL_NOTE = ("No bv_decide: all theorems depend only on propext/Classical.choice/Quot.sound (counterexamples: `decide +kernel`, propext only). "
               "Trusted: Lean kernel; the correspondence harness and generators (sampling) for model<->code; Rust cast/intrinsic semantics as "
               "listed in assumptions. The `*AsIs` models describe the pinned pre-fix code and occur only in counterexample theorems; the `.asis` "
